@@ -114,6 +114,9 @@ def paths_or_undecided(R, clause, paths):
                replay=dict(kind="frame", where=bad[0][1][0][1]))
     else:
         R.ok(f"{base}/frame", "structural", f"{len(paths)} path(s): every heap write goes to an object created by the call or its harness")
+    if any(getattr(p.ctx, "depth_cut", False) for p in paths):
+        R.undecided(f"{base}/source-trees-explored-to-a-bounded-depth",
+                    "the code walks down source expressions recursively; children of the inspected node were taken as leaves: obligations of this group are bounded, not proved")
     # preconditions of the contracts the call relied on (callee `requires` clauses)
     bad = []
     def walk(evs, sig):
@@ -190,9 +193,16 @@ def _run_group(modname, gname, tier):
         items.append(dict(name=f"{modname.split('.')[-1].upper()}/{gname}/time-budget", status=UNDECIDED, backend="-",
                           detail=f"group did not finish within {GROUP_TIMEOUT_S}s (engine budget): undecided, not a violation", replay=None, canary=False))
     except BaseException as e:  # noqa: BLE001
-        items = [dict(name=f"{modname}/{gname}/crash", status=ERROR, backend="-",
-                      detail="".join(traceback.format_exception(type(e), e, e.__traceback__))[-3000:],
-                      replay=None, canary=False)]
+        from .runner import ExplorationLimit
+        if isinstance(e, ExplorationLimit):
+            # path budget of the engine: what was decided so far stands, the rest is undecided
+            items = list(getattr(locals().get("R"), "items", []) or [])
+            items.append(dict(name=f"{modname.split('.')[-1].upper()}/{gname}/path-budget", status=UNDECIDED, backend="-",
+                              detail=f"{e} (engine budget): undecided, not a violation", replay=None, canary=False))
+        else:
+            items = [dict(name=f"{modname}/{gname}/crash", status=ERROR, backend="-",
+                          detail="".join(traceback.format_exception(type(e), e, e.__traceback__))[-3000:],
+                          replay=None, canary=False)]
     try:
         signal.alarm(0)
     except Exception:  # noqa: BLE001
@@ -321,17 +331,24 @@ def main_check(prop, tier):
 
     # replay of violations against the real code
     viol_lines = []
+    replay_cache = {}
     for i in violations:
         rp = i.get("replay") or {}
         rep = None
         if rp.get("kind") and hasattr(mod, "REPLAY"):
-            try:
-                if i["host"] != host_tag():
-                    rep = replay_on_host(modname, rp, i["host"])
-                else:
-                    rep = mod.REPLAY[rp["kind"]](rp)
-            except BaseException as e:  # noqa: BLE001
-                rep = dict(reproduced=False, error="".join(traceback.format_exception_only(type(e), e)))
+            # (a replay depends on the kind and its parameters only, not on the obligation)
+            ck = (i["host"], json.dumps({k: v for k, v in rp.items() if k != "model"}, sort_keys=True, default=str))
+            if ck in replay_cache:
+                rep = replay_cache[ck]
+            else:
+                try:
+                    if i["host"] != host_tag():
+                        rep = replay_on_host(modname, rp, i["host"])
+                    else:
+                        rep = mod.REPLAY[rp["kind"]](rp)
+                except BaseException as e:  # noqa: BLE001
+                    rep = dict(reproduced=False, error="".join(traceback.format_exception_only(type(e), e)))
+                replay_cache[ck] = rep
         hid = hashlib.sha1(i["name_h"].encode()).hexdigest()[:10]
         path = os.path.join(OUT, "replays", f"{prop}-{hid}.json")
         with open(path, "w", encoding="utf8") as f:
